@@ -60,10 +60,12 @@ const (
 	FCompact
 	FIndent
 	FHTMLEscape
+	FDecoderDecode // a fresh Decoder over the whole text (UseNumber / DisallowUnknownFields per call): streams and the function API share pooled state
+	FEncoderEncode // a fresh Encoder (SetEscapeHTML / SetIndent per call)
 	NumF
 )
 
-var fNames = []string{"Unmarshal", "UnmarshalWithKeys", "UnmarshalValid", "UnmarshalValidWithKeys", "Marshal", "MarshalEscaped", "MarshalIndent", "Valid", "Compact", "Indent", "HTMLEscape"}
+var fNames = []string{"Unmarshal", "UnmarshalWithKeys", "UnmarshalValid", "UnmarshalValidWithKeys", "Marshal", "MarshalEscaped", "MarshalIndent", "Valid", "Compact", "Indent", "HTMLEscape", "Decoder.Decode", "Encoder.Encode"}
 
 type FnCall struct {
 	ID       uint32    `json:"id"`
@@ -79,6 +81,11 @@ type FnCall struct {
 	FailAt   int       `json:"fail_at,omitempty"`
 	Panic    bool      `json:"panic,omitempty"`
 	Tape     []uint32  `json:"tape,omitempty"`
+	// Decoder/Encoder calls: UseNumber, DisallowUnknownFields; Marshal calls: Again = after a failed
+	// Marshal the value is repaired (NaN leaves replaced) and the SAME object is marshalled again
+	UseNumber bool `json:"use_number,omitempty"`
+	Disallow  bool `json:"disallow_unknown,omitempty"`
+	Again     bool `json:"again,omitempty"`
 }
 
 type EncCall struct {
@@ -761,9 +768,13 @@ func Gen(seed uint64) *Scen {
 					target, text = typedText(g, s.TypeSeed)
 				}
 				c = FnCall{Fn: r.Intn(NumF), Text: sim.Bytes(text), Target: target, TypeSeed: s.TypeSeed, Escape: r.Bool()}
-				if c.Fn <= FUnmarshalValidWithKeys {
+				if c.Fn <= FUnmarshalValidWithKeys || c.Fn == FDecoderDecode {
 					c.Prefill = prefillFor(g, target, s.TypeSeed)
 				}
+				if c.Fn == FDecoderDecode {
+					c.UseNumber, c.Disallow = r.Bool(), r.P(400)
+				}
+				c.Again = r.P(300)
 				if c.Fn == FMarshalIndent || c.Fn == FIndent {
 					c.Prefix = r.Pick([]string{"", "", ">", " "})
 					c.Indent = r.Pick([]string{"", " ", "\t", "  "})
